@@ -48,7 +48,9 @@ import numpy as np
 MAGIC = b"ajkg"
 
 TYPE_S16HL, TYPE_S16LH, TYPE_AU2 = 3, 5, 8
-FTYPES = (TYPE_S16HL, TYPE_S16LH, TYPE_AU2)
+TYPE_AU1 = 0  # shorten's original lossless mu-law type
+FTYPES = (TYPE_S16HL, TYPE_S16LH, TYPE_AU2, TYPE_AU1)
+ULAW_TYPES = (TYPE_AU1, TYPE_AU2)
 
 FN = {"DIFF0": 0, "DIFF1": 1, "DIFF2": 2, "DIFF3": 3, "QUIT": 4, "BLOCKSIZE": 5, "BITSHIFT": 6, "QLPC": 7, "ZERO": 8}
 FN_NAMES = {v: k for k, v in FN.items()}
@@ -209,6 +211,30 @@ def au2_outward(x):
     return 0xFF - x if x >= 0 else x + 0x80
 
 
+def au1_inward(code):
+    """mu-law octet -> shorten's internal value for type AU1 (first row of shorten's ulaw_outward table read backwards:
+    internal 0..127 are the positive codes 0xFF..0x80, -127..-1 the negative codes 0x00..0x7E, -128 the negative zero 0x7F)."""
+    if code >= 0x80:
+        return 0xFF - code
+    return -128 if code == 0x7F else code - 127
+
+
+def au1_outward(x):
+    if not -128 <= x <= 127:
+        raise EncodeError("AU1 value out of range")
+    if x >= 0:
+        return 0xFF - x
+    return 0x7F if x == -128 else x + 127
+
+
+def ulaw_inward(ftype, code):
+    return au1_inward(code) if ftype == TYPE_AU1 else au2_inward(code)
+
+
+def ulaw_outward(ftype, x):
+    return au1_outward(x) if ftype == TYPE_AU1 else au2_outward(x)
+
+
 # ------------------------------------------------------------------------------ encoder
 
 
@@ -277,7 +303,7 @@ def encode(version, ftype, nchan, blocksize, maxnlpc, nmean, steps, *, ulong_sla
             bs = st[1]
             continue
         if name == "BITSHIFT":
-            if st[1] < 0 or (ftype == TYPE_AU2 and st[1] != 0):
+            if st[1] < 0 or (ftype in ULAW_TYPES and st[1] != 0):
                 raise EncodeError("bit shift")
             w.uvar(FN["BITSHIFT"], FNSIZE)
             w.uvar(st[1], BITSHIFTSIZE)
@@ -293,8 +319,8 @@ def encode(version, ftype, nchan, blocksize, maxnlpc, nmean, steps, *, ulong_sla
         if len(samples) != bs:
             raise EncodeError("block of %d samples, block size %d" % (len(samples), bs))
         # output domain -> internal domain
-        if ftype == TYPE_AU2:
-            x = [au2_inward(s) for s in samples]
+        if ftype in ULAW_TYPES:
+            x = [ulaw_inward(ftype, s) for s in samples]
         else:
             for s in samples:
                 if not -32768 <= s <= 32767:
@@ -375,7 +401,7 @@ def encode(version, ftype, nchan, blocksize, maxnlpc, nmean, steps, *, ulong_sla
 def sphere_header(ftype, version, nchan, sample_count, sample_rate=16000):
     """1024-byte NIST_1A header of a shorten-compressed file, fields as written by NIST's w_encode
     (cf. the sph2pipe test vectors)."""
-    pcm = ftype != TYPE_AU2
+    pcm = ftype not in ULAW_TYPES
     coding = ("pcm" if pcm else "ulaw") + ",embedded-shorten-v" + ("2.00" if version >= 2 else "1.09")
     fields = [
         ("database_id", "verif"),
@@ -383,7 +409,7 @@ def sphere_header(ftype, version, nchan, sample_count, sample_rate=16000):
         ("sample_count", sample_count),
         ("sample_rate", sample_rate),
         ("sample_n_bytes", 2 if pcm else 1),
-        ("sample_byte_format", {TYPE_S16HL: "10", TYPE_S16LH: "01", TYPE_AU2: "1"}[ftype]),
+        ("sample_byte_format", {TYPE_S16HL: "10", TYPE_S16LH: "01", TYPE_AU2: "1", TYPE_AU1: "1"}[ftype]),
         ("sample_sig_bits", 16 if pcm else 8),
         ("sample_coding", coding),
     ]
@@ -418,7 +444,7 @@ def split_sphere(data):
 def expected_output(ftype, frames):
     """frames: (n, nchan) array of output-domain values -> what a correct reader returns."""
     frames = np.asarray(frames)
-    if ftype == TYPE_AU2:
+    if ftype in ULAW_TYPES:
         out = ULAW_EXPAND[frames.astype(np.uint8)]
     else:
         out = frames.astype(np.int16)
@@ -476,8 +502,8 @@ def reference_decode(stream):
             m = c_div(sum(x) + (bs // 2 if version >= 2 else 0), bs)
             offs[c] = offs[c][1:] + [m << shift if version >= 2 else m]
         hist[c] = b[-nwrap:]
-        if ftype == TYPE_AU2:
-            out[c] += [au2_outward(v) for v in x]
+        if ftype in ULAW_TYPES:
+            out[c] += [ulaw_outward(ftype, v) for v in x]
         else:
             out[c] += [v << shift for v in x]
     return np.array(out, dtype=np.int64).T  # (n, nchan)
@@ -540,6 +566,7 @@ def self_test():
         t = (((u & 15) << 3) + 0x84) << ((u >> 4) & 7)
         assert ulaw_expand(c) == ((0x84 - t) if u & 0x80 else (t - 0x84))
         assert au2_outward(au2_inward(c)) == c
+        assert au1_outward(au1_inward(c)) == c
     assert ulaw_expand(0xFF) == 0 and ulaw_expand(0x7F) == 0 and ulaw_expand(0x80) == 32124
     assert ulaw_expand(0x00) == -32124 and ulaw_expand(0xFE) == 8 and ulaw_expand(0x7E) == -8
     inw = [au2_inward(c) for c in range(256)]
@@ -556,14 +583,14 @@ def self_test():
             bs, shift, c = bs0, 0, 0
             names = ["DIFF0", "QLPC", "DIFF3", "ZERO", "DIFF1", "DIFF2", "QLPC", "DIFF0", "DIFF2", "QLPC", "DIFF1", "DIFF3"]
             for k, name in enumerate(names):
-                if k == 4 and ftype != TYPE_AU2:
+                if k == 4 and ftype not in ULAW_TYPES:
                     steps.append(("BITSHIFT", 3))
                     shift = 3
                 if k == 8:
                     steps.append(("BLOCKSIZE", 5))
                     bs = 5
-                if ftype == TYPE_AU2:
-                    s = [au2_outward(int(v)) for v in rng.integers(-128, 128, size=bs)]
+                if ftype in ULAW_TYPES:
+                    s = [ulaw_outward(ftype, int(v)) for v in rng.integers(-128, 128, size=bs)]
                     if name == "ZERO":
                         s = [0xFF] * bs
                 else:
